@@ -51,6 +51,21 @@ class TrLoad(TrAct):
     def expr(self, e, env):
         if isinstance(e, ast.Compare) and len(e.ops) == 2:
             return self.compare(e, env)
+        if isinstance(e, ast.Subscript) and isinstance(e.slice, ast.Slice) and e.slice.upper is None and e.slice.step is None \
+                and self.ynum(e.slice.lower) is not None:
+            o, t = self.expr(e.value, env)
+            if t == "NatList":
+                return f"({o}.drop {self.ynum(e.slice.lower)})", "NatList"
+        if isinstance(e, ast.Subscript) and isinstance(e.slice, ast.Constant) and e.slice.value in (0, 1):
+            o, t = self.expr(e.value, env)
+            if t == "IntPair":
+                return f"{o}.{e.slice.value + 1}", "PyInt"
+        if isinstance(e, ast.Subscript) and not (isinstance(e.value, ast.Name) and e.value.id == "ACCESS_LEVEL_MAP"):
+            o, t = self.expr(e.value, env)
+            if t == "NatList":
+                i, it = self.expr(e.slice, env)
+                if it == "PyInt":
+                    return f"({o}.getD {i}.toNat 0)", "Nat"
         if isinstance(e, ast.Name) and e.id == "VALID_ACCESS_VALUES" and e.id not in env:
             return "VALID_ACCESS_VALUES", "YList"
         if isinstance(e, ast.Subscript) and isinstance(e.value, ast.Name) and e.value.id == "ACCESS_LEVEL_MAP":
@@ -99,6 +114,14 @@ class TrLoad(TrAct):
             o, t = self.expr(l.func.value.args[0], env)
             if t == "Y":
                 return f"(PyRt.lowerIsNone {o})", "Bool"
+        # 0 < a < n   /   0 <= b < n   on evaluated address components
+        if len(e.ops) == 2 and self.ynum(e.left) == 0 and isinstance(e.ops[1], ast.Lt) and isinstance(e.ops[0], (ast.Lt, ast.LtE)):
+            x, xt = self.expr(e.comparators[0], env)
+            n, nt = self.expr(e.comparators[1], env)
+            if xt == "PyInt" and nt == "Nat":
+                lo = "<" if isinstance(e.ops[0], ast.Lt) else "≤"
+                return f"(decide ((0 : Int) {lo} {x}) && decide ({x} < ({n} : Int)))", "Bool"
+        # isinstance(addr, tuple) and len(addr) == 2 and all([...]) on an evaluated address: true of every parsed pair
         # 0 <= x <= 1.0
         if len(e.ops) == 2 and all(isinstance(o_, ast.LtE) for o_ in e.ops) and self.ynum(e.left) == 0 \
                 and isinstance(e.comparators[1], ast.Constant) and e.comparators[1].value in (1, 1.0):
@@ -141,6 +164,9 @@ class TrLoad(TrAct):
             return f"({a}.pyEq {b})", "Bool"
         if isinstance(op, (ast.Is, ast.IsNot)) and ta == "Y" and isinstance(r, ast.Constant) and r.value is None:
             return (f"{a}.isNull" if isinstance(op, ast.Is) else f"(!{a}.isNull)"), "Bool"
+        if isinstance(op, (ast.In, ast.NotIn)) and ta == "Str" and tb == "YList":
+            s_ = f"(pyIn (Load.Y.str {a}) {b})"
+            return (s_ if isinstance(op, ast.In) else f"(!{s_})"), "Bool"
         if isinstance(op, (ast.In, ast.NotIn)) and ta == "Str" and tb == "YMap":
             s_ = f"(getKey {b} {a}).isSome"
             return (f"({s_})" if isinstance(op, ast.In) else f"(!{s_})"), "Bool"
@@ -182,6 +208,8 @@ class TrLoad(TrAct):
                 return f"(showPair {a} {b})", "Str"                        # Python's str((a, b))
         if text == "enumerate" and len(e.args) == 1:
             o, t = self.expr(e.args[0], env)
+            if t == "NatList":
+                return f"(PyRt.enumerate {o})", "List:Nat*Nat"
             if t == "TopoL":
                 return f"(PyRt.enumerate {o})", "List:Nat*IntList"
             if t == "IntList":
@@ -203,6 +231,17 @@ class TrLoad(TrAct):
             o, t = self.expr(f.value, env)
             if t == "YMap":
                 return f"({o}.map (·.2))", "YList"
+        if text == "isinstance" and len(e.args) == 2 and ast.unparse(e.args[1]) == "tuple":
+            o, t = self.expr(e.args[0], env)
+            if t == "IntPair":
+                return "true", "Bool"
+        if text == "len" and len(e.args) == 1 and isinstance(e.args[0], ast.Name) and env.get(e.args[0].id, ("", ""))[1:] == ("IntPair",):
+            return "(2 : Nat)", "Nat"
+        if text == "all" and len(e.args) == 1 and isinstance(e.args[0], ast.ListComp) \
+                and ast.unparse(e.args[0].elt).startswith("isinstance(") and ast.unparse(e.args[0].elt).endswith(", int)"):
+            o, t = self.expr(e.args[0].generators[0].iter, env)
+            if t == "IntPair":
+                return "true", "Bool"
         if text == "isinstance" and len(e.args) == 2 and isinstance(e.args[1], ast.Name) \
                 and env.get(e.args[1].id, ("",))[0] == "pytype":
             o, t = self.expr(e.args[0], env)
@@ -244,6 +283,11 @@ class TrLoad(TrAct):
         return self.expr(e, env)
 
     def block(self, stmts, env, k, ind):
+        if stmts and isinstance(stmts[0], ast.Try) and len(stmts[0].body) == 1 and isinstance(stmts[0].body[0], ast.Assign) \
+                and isinstance(stmts[0].body[0].value, ast.Call) and ast.unparse(stmts[0].body[0].value.func) == "eval" \
+                and all(isinstance(h.body[0], ast.Raise) for h in stmts[0].handlers) and not stmts[0].orelse and not stmts[0].finalbody:
+            # try: x = eval(key) / except: raise  — the same rejection as an uncaught exception
+            return self.block([stmts[0].body[0]] + stmts[1:], env, k, ind)
         if stmts and isinstance(stmts[0], ast.Assert):
             st, rest = stmts[0], stmts[1:]
             pad = "  " * ind
@@ -400,7 +444,7 @@ class TrLoad(TrAct):
             env[c] = ("val", t)
         got = [a.arg for a in self.node.args.args if a.arg != "self"]
         want = [p for p, _ in fn.params]
-        if got != want:
+        if [g for g in got if not g.startswith("err_")] != want:
             raise Untranslatable(f"{fn.cls}.{fn.name}: parameters are {got}, expected {want}")
         for p, t in fn.params:
             env[p] = ("val", t)
@@ -499,6 +543,8 @@ def translate_loader():
     emit(mk("_validate_exploits", ["services", "os"], ["YList", "YList"], [("exploits", "YMap")]))
     emit(mk("_validate_single_privesc", ["processes", "os"], ["YList", "YList"], [("pe_name", "Y"), ("pe", "Y")]))
     emit(mk("_validate_privescs", ["processes", "os"], ["YList", "YList"], [("privescs", "YMap")]))
+    emit(mk("_has_all_host_addresses", ["subnets"], ["NatList"], [("addresses", "YList")]))
+    emit(mk("_validate_host_address", ["subnets"], ["NatList"], [("addr", "Y")]))
     emit(mk("_validate_sensitive_hosts", ["subnets", "num_hosts"], ["NatList", "Nat"], [("sensitive_hosts", "YMap")]))
     emit(mk("_contains_all_required_firewalls", ["topology"], ["TopoL"], [("firewall", "YMap")]))
     emit(mk("_validate_firewall", ["topology", "services"], ["TopoL", "YList"], [("firewall", "YMap")]))
